@@ -23,6 +23,8 @@ NoPrev == [t |-> "noprev"]
 UnionSafe(ev) == \/ ev.op \in {"rt_buffers", "rt_pickle", "rt_json", "rt_iter", "same", "concat0", "concat2", "concat3", "concatperm", "mask"}
                  \/ ev.op = "flatten" /\ ev.args.axis = AxisNone
 Expected(ev) ==
+  \* slicing a union of like-shaped members (lists of numbers of different dtypes, say) is slicing an array of that shape
+  IF ev.op = "slice" /\ HasUnion(ev.T) /\ ~HasUnion(Collapse(ev.T)) THEN VGetItem(ev.v, Collapse(ev.T), ev.args.items) ELSE
   IF HasUnion(ev.T) /\ ~UnionSafe(ev) THEN Unspec ELSE
   LET a == ev.args IN
   CASE ev.op = "num" -> VAxisOp([n |-> "num"], ev.v, ev.T, a.axis)
